@@ -2,6 +2,7 @@
 import gen_bank as G
 import gen_hops as H
 import hops_oracles as O
+from props import c16 as C16
 ID = "C02"
 MANIFEST = {
     "text": ("Kernel-checked invariant over the wrapper state machine (any number of banks and accounts, operation sequences of any "
@@ -37,11 +38,17 @@ def suites(rng, tier):
     a = [G.gen_case(rng, max_ops=28, limits="mixed", liq_ops=True, loss_ops=True) for _ in range(n)]
     m = {"quick": 500, "thorough": 10000, "search": 8000}[tier]
     b = [H.gen_case(rng, max_ops=24) for _ in range(m)]
+    k = {"quick": 1200, "thorough": 20000, "search": 8000}[tier]
+    c = [C16.gen_life(rng) for _ in range(k)]
     return [{"suite": "bankops", "name": "bankops-ledger", "lines": a, "distribution": {"cases": n, "max_ops": 28}},
-            {"suite": "hops", "name": "hops-ledger", "lines": b, "distribution": {"cases": m, "max_ops": 24}}]
+            {"suite": "hops", "name": "hops-ledger", "lines": b, "distribution": {"cases": m, "max_ops": 24}},
+            {"suite": "acctlife", "name": "account-close-transfer-ledger", "lines": c,
+             "distribution": {"cases": k, "note": "real marginfi_account_close / transfer_to_new_account on accounts with arbitrary positions: positions may only disappear with the account when they hold no shares, and a transfer moves them unchanged"}}]
 
 
 def nontrivial(suite, case, impl):
+    if suite == "acctlife":
+        return " | OK" in (" | " + impl) or impl.startswith("OK")
     if suite == "hops":
         tr = O.Trace(case, impl)
         return tr.ok and sum(1 for x in O.walk(tr) if x[1] == "OK" and x[0][0] in (1, 2, 3, 4, 7, 8, 9)) >= 3
@@ -53,7 +60,32 @@ def nontrivial(suite, case, impl):
     return ok >= 3
 
 
+def oracle_acctlife(case, impl):
+    """ledger view of account close / transfer: the sum of positions over all accounts may only lose positions that hold
+    less than one share-unit (what the code treats as empty), and a transfer keeps every position"""
+    if impl.startswith("DRIVER"):
+        return None
+    t, ops, states = C16.parse_life(case, impl)
+    cur = C16.init_life(t)
+    for op, (res, accts) in zip(ops, states):
+        if res == "OK" and op[0] == 1:
+            A = cur[op[1]]
+            if A is not None and any(b[0] and (b[3] >= ONE or b[4] >= ONE) for b in A["bals"]):
+                return {"key": "account-closed-with-positions",
+                        "what": "marginfi_account_close removed an account whose active positions still hold shares: bank totals now exceed the sum of positions by more than dust"}
+        if res == "OK" and op[0] == 2:
+            A = cur[op[1]]
+            N = accts[op[2]]
+            if A is not None and (N is None or N["bals"] != A["bals"]):
+                return {"key": "transfer-changed-positions", "what": "transfer_to_new_account did not move the positions unchanged"}
+        if res == "OK":
+            cur = accts
+    return None
+
+
 def oracle(suite, case, impl):
+    if suite == "acctlife":
+        return oracle_acctlife(case, impl)
     if suite == "hops":
         return O.oracle_c02(O.Trace(case, impl))
     return oracle_bankops(case, impl)
